@@ -425,3 +425,83 @@ func (c *Ctx) checkNilPhiDerefs(rule string, fns []*ssa.Function) {
 		c.okTrivial(rule, "dereferences of pointer variables that are nil on some path", "-", "none")
 	}
 }
+
+// checkNilErrorInvokes (R-D): err.Error() - or any method invoked on an error
+// value that is the result of a call - is reachable only where that value is
+// known to be non-nil. "if err != nil || other { log(err.Error()) }" calls a
+// method on a nil interface when only the second condition holds: a panic that a
+// well-formed but unexpected message triggers.
+func (c *Ctx) checkNilErrorInvokes(rule string, fns []*ssa.Function) {
+	p := c.P
+	n, bad := 0, 0
+	for _, fn := range fns {
+		allInstrs(fn, func(in ssa.Instruction) {
+			ci, ok := in.(ssa.CallInstruction)
+			if !ok || !ci.Common().IsInvoke() {
+				return
+			}
+			v := ci.Common().Value
+			if v.Type().String() != "error" {
+				return
+			}
+			// only values whose nil-ness is decided in this function: call results and their merges
+			src := strip(v)
+			switch src.(type) {
+			case *ssa.Extract, *ssa.Call, *ssa.Phi:
+			default:
+				return
+			}
+			if definitelyNonNil(src) {
+				return
+			}
+			n++
+			nonNil := nilCheckEdges(fn, false, func(w ssa.Value) bool { return w == v || strip(w) == src })
+			var path []*ssa.BasicBlock
+			if len(nonNil) > 0 {
+				path = reachableWithout(fn, in, nonNil)
+				if path == nil {
+					return
+				}
+				// a merged error whose every incoming value is non-nil where it arrives
+				if ph, isPhi := src.(*ssa.Phi); isPhi && !retLikeMayBeNil(ph) {
+					return
+				}
+			} else if ph, isPhi := src.(*ssa.Phi); isPhi && !retLikeMayBeNil(ph) {
+				return
+			}
+			bad++
+			c.viol(rule, p.FnName(fn)+" calls "+ci.Common().Method.Name()+"() on an error that may be nil", p.instrPos(in), "the method is invoked on a path on which the error value was not established to be non-nil: a nil interface method call panics", p.pathString(path)...)
+		})
+	}
+	if bad == 0 {
+		c.ok(rule, "methods of error values are invoked only where the error is non-nil", "-", fmt.Sprintf("%d invoke(s) on call-result errors examined", n))
+	}
+}
+
+// retLikeMayBeNil: may the merged error value be nil (some incoming value is nil or unknown)?
+func retLikeMayBeNil(ph *ssa.Phi) bool {
+	seen := map[ssa.Value]bool{}
+	var rec func(v ssa.Value) bool
+	rec = func(v ssa.Value) bool {
+		if isNilConst(v) {
+			return true
+		}
+		if definitelyNonNil(v) {
+			return false
+		}
+		if p2, ok := v.(*ssa.Phi); ok {
+			if seen[v] {
+				return false
+			}
+			seen[v] = true
+			for _, e := range p2.Edges {
+				if rec(e) {
+					return true
+				}
+			}
+			return false
+		}
+		return true
+	}
+	return rec(ph)
+}
